@@ -65,3 +65,73 @@ impl Hash for CustomSource {
     self.map.hash(state);
   }
 }
+
+/// A user-defined source that holds a library source *inline* - the wrapper and its field start at the same address - and
+/// answers like it except that it has no map.
+#[derive(Debug, Clone, PartialEq, Eq, Hash)]
+pub struct Inline(pub rspack_sources::OriginalSource);
+
+impl Source for Inline {
+  fn source(&self) -> Cow<str> {
+    self.0.source()
+  }
+  fn rope(&self) -> Rope<'_> {
+    self.0.rope()
+  }
+  fn buffer(&self) -> Cow<[u8]> {
+    self.0.buffer()
+  }
+  fn size(&self) -> usize {
+    self.0.size()
+  }
+  fn map(&self, _options: &MapOptions) -> Option<SourceMap> {
+    None
+  }
+  fn to_writer(&self, writer: &mut dyn std::io::Write) -> std::io::Result<()> {
+    self.0.to_writer(writer)
+  }
+}
+
+impl StreamChunks for Inline {
+  fn stream_chunks<'a>(&'a self, options: &MapOptions, on_chunk: OnChunk<'_, 'a>, on_source: OnSource<'_, 'a>, on_name: OnName<'_, 'a>) -> GeneratedInfo {
+    match self.0.source() {
+      Cow::Borrowed(t) => stream_chunks_default(t, None, options, on_chunk, on_source, on_name),
+      Cow::Owned(_) => unreachable!("OriginalSource::source borrows"),
+    }
+  }
+}
+
+/// Two user-defined sources without any data: every `Box` of either points at the same (dangling) address.
+macro_rules! unit_source {
+  ($name:ident, $text:expr) => {
+    #[derive(Debug, Clone, PartialEq, Eq, Hash)]
+    pub struct $name;
+    impl Source for $name {
+      fn source(&self) -> Cow<str> {
+        Cow::Borrowed($text)
+      }
+      fn rope(&self) -> Rope<'_> {
+        Rope::from($text)
+      }
+      fn buffer(&self) -> Cow<[u8]> {
+        Cow::Borrowed($text.as_bytes())
+      }
+      fn size(&self) -> usize {
+        $text.len()
+      }
+      fn map(&self, _options: &MapOptions) -> Option<SourceMap> {
+        None
+      }
+      fn to_writer(&self, writer: &mut dyn std::io::Write) -> std::io::Result<()> {
+        writer.write_all($text.as_bytes())
+      }
+    }
+    impl StreamChunks for $name {
+      fn stream_chunks<'a>(&'a self, options: &MapOptions, on_chunk: OnChunk<'_, 'a>, on_source: OnSource<'_, 'a>, on_name: OnName<'_, 'a>) -> GeneratedInfo {
+        stream_chunks_default($text, None, options, on_chunk, on_source, on_name)
+      }
+    }
+  };
+}
+unit_source!(Newline, "\n");
+unit_source!(Semicolon, ";");
